@@ -1,2 +1,413 @@
-def run_phase(tier, seed, total, jobs, budget_s):
+"""C08 workload B - pager histories on every copy of the paging logic, next to RefPaging.
+
+A history is a list of operations executed through real instructions by a real simulator whose I/O seam is
+one of the seven hand-copied 0x7FFD decoders (six Python tracers + the C OUT macro).  After every
+operation the visible ROM/banks are observed through executed loads (so the C side's private pointers are
+observed, not read), all eight physical banks are compared with the model, and the three copies of the
+paging latch (Memory.o7ffd, tracer.out7ffd, the C pointers) must agree.
+
+A second machine drives the skool-file memory model (skoolutils.Memory: bank, out7ffd, copy, slices,
+convert, #BANK/#PUSHS/#POKES/#POPS through a real AsmWriter).
+"""
+import hashlib
+import json
+import os
+import random
+import shutil
+
+from . import build, prng
+from .harness import new_result, fail, bump
+
+COPIES = ('paging', 'paging-border', 'trace', 'trace-fe', 'rzx', 'macro', 'audio128')
+ENGINES = ('py', 'c', 'pycmio', 'ccmio')
+CODE = 0x8000        # driver code lives in bank 2, which is never paged out
+
+_cls = {}
+
+def init():
+    global pagingtracer, trace, rzxplay, skoolmacro, skoolutils, simutils, snapshot_mod, roms
+    import skoolkit
+    from skoolkit import pagingtracer, trace, rzxplay, skoolmacro, skoolutils, simutils, simulator, cmiosimulator
+    from skoolkit import snapshot as snapshot_mod
+    _cls.update({'py': simulator.Simulator, 'c': skoolkit.CSimulator, 'pycmio': cmiosimulator.CMIOSimulator, 'ccmio': skoolkit.CCMIOSimulator})
+    res = os.path.join(os.path.dirname(skoolkit.__file__), 'resources')
+    roms = [open(os.path.join(res, n), 'rb').read() for n in ('128-0.rom', '128-1.rom')]
+
+class RefPaging:
+    def __init__(self, banks, o7ffd):
+        self.banks = [bytearray(b) for b in banks]
+        self.o7ffd = o7ffd
+
+    def out(self, port, value):
+        if port & 0x8002 == 0 and not self.o7ffd & 0x20:
+            self.o7ffd = value & 0xFF
+            return True
+        return False
+
+    def peek(self, a):
+        seg = a >> 14
+        if seg == 0:
+            return roms[(self.o7ffd >> 4) & 1][a]
+        return (self.banks[5], self.banks[2], self.banks[self.o7ffd & 7])[seg - 1][a & 0x3FFF]
+
+    def poke(self, a, v):
+        seg = a >> 14
+        if seg:
+            (self.banks[5], self.banks[2], self.banks[self.o7ffd & 7])[seg - 1][a & 0x3FFF] = v
+
+def gen_banks(rng, equal):
+    if equal:
+        return [{'fill': 0} for _ in range(8)]
+    return [{'mark': rng.randrange(256)} for _ in range(8)]
+
+def bank_bytes(spec, k):
+    if 'fill' in spec:
+        return bytes([spec['fill']]) * 0x4000
+    m = spec['mark']
+    return bytes(((m + k * 37 + i * 7 + (i >> 8)) & 0xFF) for i in range(0x4000))
+
+PORTS_HIT = (0x7FFD, 0x7FFD, 0x0000, 0x00FD, 0x3FFD, 0x7DFC, 0x1234 & 0x7FFD, 0x5555 & 0x7FFD, 0x7FF9)
+PORTS_MISS = (0xFFFD, 0xBFFD, 0x7FFF, 0x7FFE | 2, 0x8000, 0xFFFF, 0x00FE | 2, 0x8001, 0xFFFC, 0x0002)
+
+def gen_sim(rng, tier, index):
+    n = rng.choice((1, 2, 3, 5, 8, 13, 30))
+    ops = []
+    for _ in range(n):
+        r = rng.random()
+        if r < 0.45:
+            port = rng.choice(PORTS_HIT) if rng.random() < 0.7 else rng.choice(PORTS_MISS)
+            if rng.random() < 0.15:
+                port = rng.randrange(0x10000)
+            v = rng.choice((rng.randrange(8), 0x10 | rng.randrange(8), rng.randrange(32), 0x20 | rng.randrange(32), rng.randrange(256)))
+            ops.append(['out', port, v, rng.choice(('c', 'c', 'n', 'outi', 'c0'))])
+        elif r < 0.75:
+            a = rng.choice((rng.randrange(0x10000), rng.choice((0x0000, 0x3FFF, 0x4000, 0x7FFF, 0xBFFF, 0xC000, 0xC001, 0xFFFF, 0xFFFE)), rng.randrange(0xC000, 0x10000)))
+            ops.append(['poke', a, rng.randrange(256), rng.choice(('a', 'hl', 'push', 'ldir', 'w'))])
+        elif r < 0.9:
+            ops.append(['peek', rng.choice((rng.randrange(0x10000), rng.randrange(0xC000, 0x10000), rng.randrange(0x4000)))])
+        else:
+            ops.append(['restart', rng.choice(('szx', 'z80'))])
+    return {'kind': 'pager-sim', 'copy': COPIES[index % len(COPIES)], 'engine': ENGINES[(index // len(COPIES)) % 4], 'machine': rng.choice(('128K', '+2')),
+            'o7ffd': rng.choice((0, 0, 1, 7, 16, 23, rng.randrange(32))), 'banks': gen_banks(rng, rng.random() < 0.3), 'ops': ops}
+
+# -- building the system under test --------------------------------------------------------
+
+class _Obj:
     pass
+
+def make_tracer(copy, sim, o7ffd, outfffd=0, ay=None, border=0, outfe=0):
+    ay = list(ay or [0] * 16)
+    if copy in ('paging', 'paging-border'):
+        class T(pagingtracer.PagingTracer):
+            pass
+        t = T()
+        t.simulator = sim
+        t.out7ffd, t.outfffd, t.ay, t.outfe = o7ffd, outfffd, ay, outfe
+        if copy == 'paging-border':
+            t.border = [(0, border)]
+            t.frame_duration = sim.frame_duration
+            t.write_port = t.write_port_with_border_list
+        else:
+            t.border = border
+        return t
+    if copy in ('trace', 'trace-fe'):
+        return trace.Tracer(sim, border, o7ffd, outfffd, ay, outfe, copy == 'trace-fe')
+    if copy == 'rzx':
+        ctx = _Obj()
+        ctx.simulator = sim
+        ctx.frame_count = 0
+        ctx.snapshot = _Obj()
+        ctx.snapshot.border, ctx.snapshot.out7ffd, ctx.snapshot.outfffd, ctx.snapshot.ay, ctx.snapshot.outfe = border, o7ffd, outfffd, tuple(ay), outfe
+        rec = rzxplay.InputRecording(sim.registers[25], [], b'')
+        return rzxplay.RZXTracer(ctx, rec)
+    if copy == 'macro':
+        return skoolmacro.PagingTracer(sim.memory, o7ffd, outfffd, ay)
+    if copy == 'audio128':
+        return skoolmacro.AudioTracer128(sim.memory, o7ffd, outfffd, ay)
+    raise ValueError(copy)
+
+def make_system(scn, banks, o7ffd, regs=None, outfffd=0, ay=None):
+    cls = _cls[scn['engine']]
+    if scn['copy'] in ('macro', 'audio128'):
+        # the macros run simulators on the skool-file memory model
+        mem = skoolutils.Memory([list(b) for b in banks], None, None, None, 0)
+        mem.memory[0] = mem.roms[0]
+        mem.out7ffd(o7ffd)
+    else:
+        mem = pagingtracer.Memory([list(b) for b in banks], o7ffd, scn['machine'])
+    sim = simutils.from_memory(cls, mem, {'SP': 0xBF00}, {'iff': 0, 'tstates': 0})
+    tr = make_tracer(scn['copy'], sim, o7ffd, outfffd, ay)
+    sim.set_tracer(tr)
+    return sim, tr
+
+def word(n):
+    return [n & 0xFF, (n >> 8) & 0xFF]
+
+def run_code(sim, code):
+    mem = sim.memory
+    for i, b in enumerate(code):
+        mem[CODE + i] = b
+    stop = CODE + len(code)
+    sim.run(CODE, stop)
+
+def run(scn):
+    res = new_result()
+    wd = build.workdir()
+    try:
+        if scn['kind'] == 'pager-sim':
+            return _run_sim(scn, res, wd)
+        return _run_skoolmem(scn, res, wd)
+    finally:
+        shutil.rmtree(wd, ignore_errors=True)
+
+def _model_code_write(model, code):
+    for i, b in enumerate(code):
+        model.banks[2][CODE - 0x8000 + i] = b
+
+def _physical(sim):
+    return [bytes(b) for b in sim.memory.banks]
+
+def _check_all(scn, sim, tr, model, res, step, what):
+    tag = '%s/%s' % (scn['copy'], scn['engine'])
+    # latch copies
+    if sim.memory.o7ffd != model.o7ffd:
+        return fail(res, 'C08/hist/o7ffd/%s' % scn['copy'], '%s step %d (%s): memory.o7ffd=%d, last accepted write %d' % (tag, step, what, sim.memory.o7ffd, model.o7ffd))
+    if tr.out7ffd != model.o7ffd:
+        return fail(res, 'C08/hist/tracer-latch/%s' % scn['copy'], '%s step %d (%s): tracer.out7ffd=%d, last accepted write %d' % (tag, step, what, tr.out7ffd, model.o7ffd))
+    # observe the mapping through executed loads (C pointers included)
+    probes = (0x0001, 0x3FFE, 0x4001, 0x7FFE, 0x8100, 0xC000, 0xC001, 0xFFFF)
+    code = []
+    for a in probes:
+        code += [0x3A] + word(a) + [0x32] + word(0x8200 + probes.index(a))      # LD A,(a); LD (0x8200+i),A
+    run_code(sim, code)
+    _model_code_write(model, code)
+    for i, a in enumerate(probes):
+        want = model.peek(a)
+        model.banks[2][0x200 + i] = want
+        got = sim.memory[0x8200 + i]
+        if got != want:
+            return fail(res, 'C08/hist/mapping/%s' % scn['copy'], '%s step %d (%s): LD A,(%d) read %d, model %d (o7ffd=%d: ROM %d, bank %d at 0xC000)' % (
+                tag, step, what, a, got, want, model.o7ffd, (model.o7ffd >> 4) & 1, model.o7ffd & 7))
+    # every physical bank
+    phys = _physical(sim)
+    for k in range(8):
+        if phys[k] != bytes(model.banks[k]):
+            j = next(i for i in range(0x4000) if phys[k][i] != model.banks[k][i])
+            return fail(res, 'C08/hist/bank-content/%s' % scn['copy'], '%s step %d (%s): bank %d offset %d holds %d, model %d' % (tag, step, what, k, j, phys[k][j], model.banks[k][j]))
+    for k in range(2):
+        if bytes(sim.memory.roms[k]) != roms[k] and scn['machine'] == '128K' and scn['copy'] not in ('macro', 'audio128'):
+            return fail(res, 'C08/hist/rom-modified', '%s step %d (%s): ROM %d modified' % (tag, step, what, k))
+    return None
+
+def _run_sim(scn, res, wd):
+    banks = [bank_bytes(s, k) for k, s in enumerate(scn['banks'])]
+    model = RefPaging(banks, scn['o7ffd'])
+    sim, tr = make_system(scn, banks, scn['o7ffd'])
+    global roms
+    rom_set = [bytes(r) for r in sim.memory.roms]
+    saved = roms
+    roms = rom_set
+    try:
+        r = _check_all(scn, sim, tr, model, res, -1, 'initial')
+        if r:
+            return r
+        h = hashlib.sha256()
+        for step, op in enumerate(scn['ops']):
+            what = ' '.join(str(x) for x in op)
+            if op[0] == 'out':
+                port, v, form = op[1], op[2], op[3]
+                if form == 'c':
+                    code = [0x01] + word(port) + [0x3E, v, 0xED, 0x79]
+                    pv = (port, v)
+                elif form == 'c0':
+                    code = [0x01] + word(port) + [0xED, 0x71]
+                    pv = (port, 0)
+                elif form == 'n':
+                    code = [0x3E, v, 0xD3, port & 0xFF]
+                    pv = ((v << 8) | (port & 0xFF), v)
+                else:   # OUTI: port = (B-1):C, value from (HL)
+                    code = [0x21] + word(0x8300) + [0x36, v, 0x01] + word(((port + 0x100) & 0xFF00) | (port & 0xFF)) + [0xED, 0xA3]
+                    pv = (port, v)
+                    model.banks[2][0x300] = v
+                run_code(sim, code)
+                _model_code_write(model, code)
+                if model.out(*pv):
+                    bump(res, 'fault:PAGING_WRITE')
+                elif pv[0] & 0x8002 == 0:
+                    bump(res, 'probe:write_after_lock')
+                else:
+                    bump(res, 'probe:near_miss_port')
+            elif op[0] == 'poke':
+                a, v, form = op[1], op[2], op[3]
+                if form == 'a':
+                    code = [0x3E, v, 0x32] + word(a)
+                    writes = [(a, v)]
+                elif form == 'hl':
+                    code = [0x21] + word(a) + [0x36, v]
+                    writes = [(a, v)]
+                elif form == 'push':
+                    code = [0x31] + word((a + 2) & 0xFFFF) + [0x01] + word((v << 8) | (v ^ 0xFF)) + [0xC5, 0x31] + word(0xBF00)
+                    writes = [((a + 1) & 0xFFFF, v), (a, v ^ 0xFF)]
+                elif form == 'w':
+                    code = [0x21] + word((v << 8) | (v ^ 0x55)) + [0x22] + word(a)
+                    writes = [(a, v ^ 0x55), ((a + 1) & 0xFFFF, v)]
+                else:   # LDIR two bytes from the code area
+                    code = [0x21] + word(0x8400) + [0x36, v, 0x23, 0x36, v ^ 0xAA, 0x2B, 0x11] + word(a) + [0x01, 2, 0, 0xED, 0xB0]
+                    writes = [(a, v), ((a + 1) & 0xFFFF, v ^ 0xAA)]
+                # a write must not hit the driver code itself
+                if any(CODE <= w[0] < CODE + 0x500 for w in writes):
+                    continue
+                if form == 'ldir':
+                    model.banks[2][0x400] = v
+                    model.banks[2][0x401] = v ^ 0xAA
+                run_code(sim, code)
+                _model_code_write(model, code)
+                for a_, v_ in writes:
+                    model.poke(a_, v_)
+                bump(res, 'pokes')
+            elif op[0] == 'peek':
+                pass    # every check below peeks
+            elif op[0] == 'restart':
+                # only durable state survives: write a snapshot with the real writer, rebuild from it
+                fn = os.path.join(wd, 'r%d.%s' % (step, op[1]))
+                ram, registers, state, machine = simutils.get_state(sim) if hasattr(tr, 'border') and hasattr(tr, 'outfe') else (None, None, None, None)
+                if ram is None or scn['copy'] in ('macro', 'audio128'):
+                    continue
+                snapshot_mod.write_snapshot(fn, ram, registers, state, machine)
+                snap = snapshot_mod.Snapshot.get(fn)
+                cls = _cls[scn['engine']]
+                sim = simutils.from_snapshot(cls, snap, {'SP': 0xBF00, 'PC': CODE}, {'iff': 0})
+                if sim.memory.o7ffd != snap.out7ffd:
+                    pass
+                tr = make_tracer(scn['copy'], sim, snap.out7ffd, snap.outfffd, snap.ay, snap.border, snap.outfe)
+                sim.set_tracer(tr)
+                bump(res, 'fault:CRASH(%s)' % op[1])
+            r = _check_all(scn, sim, tr, model, res, step, what)
+            if r:
+                return r
+            bump(res, 'events')
+            h.update(what.encode())
+            h.update(bytes([model.o7ffd]))
+        res['sigs'].append('%s|%s|%s|%d' % (scn['copy'], scn['engine'], 'eq' if 'fill' in scn['banks'][0] else 'mk', min(len(scn['ops']), 8)))
+        res['digest'] = h.hexdigest()
+        return res
+    finally:
+        roms = saved
+
+# -- skool-file memory model -------------------------------------------------------------------
+
+def gen_skoolmem(rng, tier, index):
+    n = rng.choice((1, 2, 3, 5, 8, 13, 25))
+    ops = []
+    for _ in range(n):
+        r = rng.random()
+        if r < 0.2:
+            ops.append(['bank', rng.randrange(8)])
+        elif r < 0.28:
+            ops.append(['bankdata', rng.randrange(8), rng.randrange(256)])
+        elif r < 0.4:
+            ops.append(['out7ffd', rng.choice((rng.randrange(8), 0x10 | rng.randrange(8), rng.randrange(256)))])
+        elif r < 0.55:
+            ops.append(['copy'])
+        elif r < 0.8:
+            ops.append(['set', rng.choice((rng.randrange(0x4000, 0x10000), rng.randrange(0xC000, 0x10000), 0xC000, 0xFFFF)), rng.randrange(256)])
+        elif r < 0.9:
+            a = rng.randrange(0x4000, 0xFFF0)
+            ops.append(['setslice', a, rng.randrange(1, 6), rng.choice((1, 1, 2)), rng.randrange(256)])
+        elif r < 0.95:
+            ops.append(['pushpop', rng.randrange(0xC000, 0x10000), rng.randrange(256)])
+        else:
+            ops.append(['convert'])
+    return {'kind': 'skool-memory', 'start128': rng.random() < 0.8, 'ops': ops}
+
+def _run_skoolmem(scn, res, wd):
+    from skoolkit.skoolutils import Memory
+    m = Memory()
+    # model: 8 banks (None until 128K), mapping index
+    banks = [None] * 8
+    for k in (5, 2, 0):
+        banks[k] = bytearray(0x4000)
+    page = 0
+    is128 = False
+    def to128():
+        nonlocal is128
+        if not is128:
+            for k in (1, 3, 4, 6, 7):
+                banks[k] = bytearray(0x4000)
+            is128 = True
+    def mpeek(a):
+        seg = a >> 14
+        if seg == 0:
+            return None
+        return (banks[5], banks[2], banks[page])[seg - 1][a & 0x3FFF]
+    def mpoke(a, v):
+        seg = a >> 14
+        if seg:
+            (banks[5], banks[2], banks[page])[seg - 1][a & 0x3FFF] = v
+    if scn['start128']:
+        m.bank(0)
+        to128()
+    stack = []
+    for step, op in enumerate(scn['ops']):
+        what = ' '.join(str(x) for x in op)
+        if op[0] == 'bank':
+            m.bank(op[1])
+            to128()
+            page = op[1]
+        elif op[0] == 'bankdata':
+            if not is128:
+                continue
+            data = [(op[2] + i) & 0xFF for i in range(0x4000)]
+            m.bank(op[1], data)
+            banks[op[1]][:] = bytes(data)
+        elif op[0] == 'out7ffd':
+            if not is128:
+                continue
+            m.out7ffd(op[1])
+            page = op[1] & 7
+        elif op[0] == 'copy':
+            m = m.copy()
+        elif op[0] == 'set':
+            m[op[1]] = op[2]
+            mpoke(op[1], op[2])
+        elif op[0] == 'setslice':
+            a, n, st, v = op[1:5]
+            m[a:a + n * st:st] = [v] * n
+            for i in range(n):
+                mpoke((a + i * st) & 0xFFFF, v)
+        elif op[0] == 'pushpop':
+            saved = m.copy()
+            m[op[1]] = op[2]
+            m[:] = saved[:]          # what the writers' pop_snapshot does
+        elif op[0] == 'convert':
+            m.convert()
+        bump(res, 'events')
+        # invariants: visible memory = model; each physical bank = model; o7ffd consistent
+        for a in (0x4000, 0x7FFF, 0x8000, 0xBFFF, 0xC000, 0xC001, 0xFFFE, 0xFFFF) + ((op[1],) if op[0] == 'set' else ()):
+            if m[a] != mpeek(a):
+                return fail(res, 'C08/skoolmem/visible', 'step %d (%s): memory[%d]=%d, model %d (paged bank %d)' % (step, what, a, m[a], mpeek(a), page))
+        for k in range(8):
+            if banks[k] is not None and m.banks[k] is not None and bytes(m.banks[k]) != bytes(banks[k]):
+                j = next(i for i in range(0x4000) if m.banks[k][i] != banks[k][i])
+                return fail(res, 'C08/skoolmem/bank-content', 'step %d (%s): bank %d offset %d holds %d, model %d (paged bank %d)' % (step, what, k, j, m.banks[k][j], banks[k][j], page))
+        if is128 and m.o7ffd % 8 != page:
+            return fail(res, 'C08/skoolmem/o7ffd', 'step %d (%s): o7ffd=%d but bank %d is paged in' % (step, what, m.o7ffd, page))
+    res['sigs'].append('skoolmem|%d|%s' % (min(len(scn['ops']), 8), scn['start128']))
+    res['digest'] = hashlib.sha256(json.dumps(scn['ops']).encode()).hexdigest()
+    return res
+
+def gen(rng, tier, index):
+    if index % 5 == 4:
+        return gen_skoolmem(rng, tier, index)
+    return gen_sim(rng, tier, index - index // 5)
+
+def shrink_candidates(scn):
+    ops = scn['ops']
+    def cp(o):
+        c = json.loads(json.dumps(scn)); c['ops'] = o; return c
+    n = len(ops)
+    for m in (1, n // 2, n - 1):
+        if 0 < m < n:
+            yield cp(ops[:m])
+    for i in range(n - 1):
+        yield cp(ops[:i] + ops[i + 1:])
